@@ -16,7 +16,7 @@ import (
 
 func init() { props["C14"] = runC14 }
 
-var c14Alphabet = []rune{'a', 'b', 'A', 'z', ' ', 'é', 'ß', '€', '中', '😀', '́', 'Z', '1', '\'', 'É'}
+var c14Alphabet = []rune{'a', 'b', 'A', 'z', ' ', 'é', 'ß', '€', '中', '😀', '́', 'Z', '1', '\'', 'É', '\uFFFD', '\u0000', '\U0010FFFF'}
 
 func c14Rand(r *rng, maxLen int) string {
 	n := r.intn(maxLen + 1)
@@ -111,7 +111,7 @@ func runC14(cfg config) {
 		return "(Ok OOther)"
 	}
 	var strs []string
-	strs = append(strs, "", "a", "é", "😀", "abc", "aé€😀", "éx", "abcabc", "aaa", "中中a中", "aaab", "éééa", "ababac", "😀😀😀é", "aabaab", "QUJD", "//4AQcMo6Q==", "AAAA", "w6k=", "8J+YgA==", "abcdabcd")
+	strs = append(strs, "M\uFFFDller", "\uFFFD", "a\uFFFD\uFFFDb\uFFFD", "\U0010FFFFx\u0080y\u07FFz\u0800", "", "a", "é", "😀", "abc", "aé€😀", "éx", "abcabc", "aaa", "中中a中", "aaab", "éééa", "ababac", "😀😀😀é", "aabaab", "QUJD", "//4AQcMo6Q==", "AAAA", "w6k=", "8J+YgA==", "abcdabcd")
 	// exhaustive over length <= 2 of a 4-symbol sub-alphabet mixing 1-, 2-, 3- and 4-byte code points
 	sub := []rune{'a', 'é', '€', '😀'}
 	for _, x := range sub {
